@@ -246,6 +246,70 @@ func (P) Generate(g *hx.Gen) {
 		g.Case("kill-seq", ops, true)
 	}
 
+	// ---- (F) write ERRORS inside a call: the child limits its file size (RLIMIT_FSIZE, SIGXFSZ ignored), so the write of
+	// the record is cut short / fails with EFBIG like on a full disk ---------------------------------------------------
+	{
+		a := mkReq(hrs{5, 0, 2}, 1, 1000, "c")
+		b := mkReq(hrs{5, 0, 2}, 2, 1000, "c")
+		c6 := mkReq(hrs{6, 0, 2}, 3, 2000, "c")
+		for _, spec := range []string{"fsize:0", "fsize:200", "short:1"} {
+			f := *c6
+			f.fail = spec
+			g.Case("corpus failed save "+spec, []string{"case", "init", a.line(), f.line(), "show", b.line(), a.line(), c6.line(), "show"}, true)
+		}
+	}
+	failSpec := func() string {
+		switch g.Rng.Intn(7) {
+		case 0:
+			return "fsize:0"
+		case 1:
+			return "fsize:1"
+		case 2:
+			return fmt.Sprintf("fsize:%d", 2+g.Rng.Intn(300))
+		case 3:
+			return "short:1"
+		case 4:
+			return "short:0" // exactly the record length: the write fits, nothing fails
+		default:
+			return fmt.Sprintf("short:%d", 1+g.Rng.Intn(1200))
+		}
+	}
+	nF := g.Pick(40, 300)
+	for k := 0; k < nF; k++ {
+		s := &seqGen{g: g}
+		ops := []string{"case", "init"}
+		for i := g.Rng.Intn(3); i > 0; i-- {
+			ops = append(ops, s.next().line())
+		}
+		for j := 1 + g.Rng.Intn(2); j > 0; j-- {
+			q := s.next()
+			fq := *q
+			fq.fail = failSpec()
+			g.Count("fail:" + strings.Split(fq.fail, ":")[0])
+			ops = append(ops, fq.line())
+			at := hrs{q.h, q.r, q.step()}
+			other := mkReq(at, 7+g.Rng.Intn(3), 5, "c")
+			follow := []string{other.line(), q.line(), "show"}
+			g.Rng.Shuffle(3, func(x, y int) { follow[x], follow[y] = follow[y], follow[x] })
+			ops = append(ops, follow[:1+g.Rng.Intn(3)]...)
+		}
+		g.Case("fail-seq", ops, true)
+	}
+	if g.Thorough() {
+		// every cut point of the record: limit = record length - k for k = 0 .. beyond the record length
+		for base := 0; base <= 1400; base += 50 {
+			ops := []string{"case", "init"}
+			for k := base; k < base+50; k++ {
+				q := mkReq(hrs{uint64(1 + k), 0, 2}, 1, 10, "c")
+				q.fail = fmt.Sprintf("short:%d", k)
+				ops = append(ops, q.line())
+			}
+			ops = append(ops, "show")
+			g.Count("fail:sweep-cases")
+			g.Case(fmt.Sprintf("failed save sweep short:%d..", base), ops, true)
+		}
+	}
+
 	// ---- (C) checkHRS through the exported API, exhaustive over small values -------------------
 	for ls := 0; ls <= 3; ls++ {
 		for _, hasb := range []bool{false, true} {
